@@ -817,4 +817,624 @@ theorem saveStreams_spec (ee : Bool) : ∀ (l : List Stream) (s s' : State), SSt
     simp only [sExtras, List.map_cons, List.sum_cons] at *
     omega
 
+
+/-! ### the stream lists handed to `Distribute` -/
+
+theorem streamsOf_spec (ss : List Stream) (hid : SidOK ss) : ∀ (ids : List Nat), ids.Nodup →
+    ((ids.filterMap (getS ss)).map (·.id)).Nodup ∧
+    ∀ st ∈ ids.filterMap (getS ss), getS ss st.id = some st ∧ st.id ∈ ids := by
+  intro ids
+  induction ids with
+  | nil => intro _; simp
+  | cons x xs ih =>
+    intro hnd
+    obtain ⟨h1, h2⟩ := List.nodup_cons.1 hnd
+    obtain ⟨i1, i2⟩ := ih h2
+    cases hg : getS ss x with
+    | none =>
+      simp only [List.filterMap_cons, hg]
+      exact ⟨i1, fun st hst => ⟨(i2 st hst).1, List.mem_cons_of_mem _ (i2 st hst).2⟩⟩
+    | some st0 =>
+      simp only [List.filterMap_cons, hg]
+      obtain ⟨_, _, _, hid0, _⟩ := getS_some hid hg
+      refine ⟨?_, ?_⟩
+      · simp only [List.map_cons]
+        refine List.nodup_cons.2 ⟨?_, i1⟩
+        intro hm
+        obtain ⟨y, hy, he⟩ := List.mem_map.1 hm
+        have := (i2 y hy).2
+        rw [he, hid0] at this
+        exact h1 this
+      · intro st hst
+        rcases List.mem_cons.1 hst with h | h
+        · subst h; exact ⟨by rw [hid0]; exact hg, by rw [hid0]; exact List.mem_cons_self⟩
+        · exact ⟨(i2 st h).1, List.mem_cons_of_mem _ (i2 st h).2⟩
+
+/-- input condition of `Distribute`: distinct exact copies of stored streams that are in the active list -/
+def GoodInput (s : State) (l : List Stream) : Prop :=
+  (l.map (·.id)).Nodup ∧ ∀ st ∈ l, getS s.streams st.id = some st ∧ st.id ∈ s.active.ids
+
+theorem activeStreams_good (s : State) (hs : SStruct s) : GoodInput s (activeStreams s) := by
+  obtain ⟨n1, _, _⟩ := List.nodup_append.1 hs.nodup
+  exact streamsOf_spec s.streams hs.sid s.active.ids n1
+
+theorem activeStreamsFor_good (s : State) (hs : SStruct s) (e : Nat) : GoodInput s (activeStreamsFor s e) := by
+  obtain ⟨a, b⟩ := activeStreams_good s hs
+  unfold activeStreamsFor
+  exact ⟨a.sublist ((List.filter_sublist).map _), fun st hst => b st (List.mem_filter.1 hst).1⟩
+
+/-- stream-cache invariant together with "the cache holds the same ids as the input" -/
+def SCI2 (ss : List Stream) (ids : List Nat) (c : Caches) : Prop := SCI ss c ∧ c.streams.map (·.id) = ids
+
+theorem rewardsCb_SCI2 (s : State) (ss : List Stream) (ids : List Nat) (c : Caches) (v : SView) (r : Rec) (h : SCI2 ss ids c) :
+    SCI2 ss ids (rewardsCb s c v r).1 := by
+  refine ⟨rewardsCb_SCI s ss c v r h.1, ?_⟩
+  obtain ⟨⟨hn, _, _⟩, hi⟩ := h
+  unfold rewardsCb
+  cases hs : c.getStream v.id with
+  | none => exact hi
+  | some stream =>
+    simp only
+    obtain ⟨hm, _⟩ := cacheGetStream_some hs
+    cases hg : c.getGauge r.gauge with
+    | some g =>
+      simp only
+      split
+      · exact hi
+      · simp only
+        exact ((upsertStream_present (fun _ => 0) c.streams { stream with distributed := Coins.add stream.distributed (gaugeRewards stream.epochCoins r.weight stream.totalWeight) } stream hn hm rfl).1).trans hi
+    | none =>
+      simp only
+      cases hst : getGauge s r.gauge with
+      | none => exact hi
+      | some g =>
+        simp only
+        by_cases hf : g.isFinished s.now = true
+        · simp only [hf, if_true]; exact hi
+        · rw [if_neg hf]
+          simp only
+          split
+          · exact hi
+          · simp only
+            exact ((upsertStream_present (fun _ => 0) c.streams { stream with distributed := Coins.add stream.distributed (gaugeRewards stream.epochCoins r.weight stream.totalWeight) } stream hn hm rfl).1).trans hi
+
+theorem ptrLoop_SCI2 (s : State) (ss : List Stream) (ids : List Nat) (maxOps : Nat) :
+    ∀ (es : List Nat) (total : Nat) (c : Caches) (ps : List Pointer), SCI2 ss ids c →
+      SCI2 ss ids (ptrLoop s maxOps es total c ps).2.1 := by
+  intro es
+  induction es with
+  | nil => intro total c ps h; exact h
+  | cons e rest ih =>
+    intro total c ps h
+    unfold ptrLoop
+    split
+    · exact h
+    · exact ih _ _ _ (iterate_inv (SCI2 ss ids) _ e _ _ (rewardsCb s) c (fun acc v r hp => rewardsCb_SCI2 s ss ids acc v r hp) h)
+
+theorem SStruct_congr {s s' : State} (h1 : s'.streams = s.streams) (h2 : s'.active = s.active) (h3 : s'.upcoming = s.upcoming)
+    (hs : SStruct s) : SStruct s' := by
+  have ho : openIds s' = openIds s := by unfold openIds; rw [h2, h3]
+  exact ⟨by rw [h1]; exact hs.sid, by rw [ho, h1]; exact hs.valid, by rw [ho]; exact hs.nodup⟩
+
+theorem owedL_congr {s s' : State} (h1 : s'.streams = s.streams) (h2 : s'.active = s.active) (h3 : s'.upcoming = s.upcoming) (i : Nat) :
+    owedL s' i = owedL s i := by
+  unfold owedL openIds; rw [h1, h2, h3]
+
+/-- x/streamer `Keeper.Distribute`, stream side: streams only grow, and if afterwards no stream has
+    over-distributed, the streamer account still covers its open streams -/
+theorem strDistribute_streams (s : State) (es : List Nat) (streams : List Stream) (maxOps : Nat) (ee : Bool) (s' : State)
+    (hg : GInv s) (hs : SStruct s) (hin : GoodInput s streams)
+    (h : strDistribute s es streams maxOps ee = .ok s') :
+    SStruct s' ∧ StreamsMono s.streams s'.streams ∧
+    ((∀ i, owedL s i ≤ amt (s.bank.get streamerAddr) i) → NoOver s'.streams →
+      ∀ i, owedL s' i ≤ amt (s'.bank.get streamerAddr) i) := by
+  unfold strDistribute at h
+  have hci := ptrLoop_CI s hg.ids maxOps (sortByDuration es) 0 ⟨streams, [], []⟩ s.ptrs
+    ⟨by simp, by simp, by intro i; simp [extras]⟩
+  have hsci := ptrLoop_SCI2 s s.streams (streams.map (·.id)) maxOps (sortByDuration es) 0 ⟨streams, [], []⟩ s.ptrs
+    ⟨⟨hin.1, fun st hst => ⟨st, (hin.2 st hst).1, rfl, fun _ => Nat.le_refl _⟩, by
+        intro i
+        unfold sExtras
+        apply sum_zero_of_all_zero
+        intro x hx
+        obtain ⟨st, hst, he⟩ := List.mem_map.1 hx
+        rw [← he]; unfold sExtra storedDist; rw [(hin.2 st hst).1]; simp⟩, rfl⟩
+  generalize ptrLoop s maxOps (sortByDuration es) 0 ⟨streams, [], []⟩ s.ptrs = res at h hci hsci
+  obtain ⟨tot, c, ps⟩ := res
+  dsimp only at h hci hsci
+  obtain ⟨ci1, ci2, ci3⟩ := hci
+  obtain ⟨⟨sc1, sc2, sc3⟩, sc4⟩ := hsci
+  have hne : streamerAddr ≠ incAddr := by decide
+  have key : ∀ b : Bank, (∀ i, amt (b.get incAddr) i = amt (s.bank.get incAddr) i + amt c.distributed i) →
+      (∀ i, amt c.distributed i ≤ amt (s.bank.get streamerAddr) i ∧
+        amt (b.get streamerAddr) i = amt (s.bank.get streamerAddr) i - amt c.distributed i) →
+      ∀ s2, incDistribute { s with ptrs := ps, bank := b } c.gauges ee = .ok s2 → saveStreams ee c.streams s2 = .ok s' →
+      SStruct s' ∧ StreamsMono s.streams s'.streams ∧
+      ((∀ i, owedL s i ≤ amt (s.bank.get streamerAddr) i) → NoOver s'.streams →
+        ∀ i, owedL s' i ≤ amt (s'.bank.get streamerAddr) i) := by
+    intro b hb1 hb2 s2 hinc hsave
+    obtain ⟨_, _, r3, _, _, r6, _⟩ := incDistribute_spec { s with ptrs := ps, bank := b } c.gauges ee s2
+      hg.ids hg.bounded ci1 ci2
+      (by intro i; simp only; rw [ci3 i, hb1 i]; have := hg.solvent i; omega) hinc
+    have e1 : s2.streams = s.streams := by rw [r3]
+    have e2 : s2.active = s.active := by rw [r3]
+    have e3 : s2.upcoming = s.upcoming := by rw [r3]
+    have hs2 : SStruct s2 := SStruct_congr e1 e2 e3 hs
+    have hall : ∀ st ∈ c.streams, SCoh s2.streams st ∧ st.id ∈ s2.active.ids := by
+      intro st hst
+      refine ⟨by rw [e1]; exact sc2 st hst, ?_⟩
+      have : st.id ∈ streams.map (·.id) := by rw [← sc4]; exact List.mem_map_of_mem (f := (·.id)) hst
+      obtain ⟨y, hy, he⟩ := List.mem_map.1 this
+      rw [e2, ← he]; exact (hin.2 y hy).2
+    obtain ⟨q1, q2, q3, _, q5⟩ := saveStreams_spec ee c.streams s2 s' hs2 sc1 hall hsave
+    refine ⟨q1, by rw [e1] at q2; exact q2, ?_⟩
+    intro hsol hno i
+    have h5 := q5 hno i
+    rw [e1, sc3 i, owedL_congr e1 e2 e3 i] at h5
+    have h6 := r6 streamerAddr hne i
+    simp only at h6
+    have := hsol i
+    have := hb2 i
+    rw [q3]
+    omega
+  by_cases hz : c.distributed.isZero = true
+  · simp only [hz, if_true] at h
+    cases hinc : incDistribute { s with ptrs := ps, bank := s.bank } c.gauges ee with
+    | error e => simp [hinc] at h
+    | ok s2 =>
+      simp only [hinc] at h
+      exact key s.bank (by intro i; have := (isZero_iff _).1 hz i; omega)
+        (by intro i; have := (isZero_iff _).1 hz i; omega) s2 hinc h
+  · rw [if_neg hz] at h
+    cases hsend : s.bank.send streamerAddr incAddr c.distributed with
+    | none => simp [hsend] at h
+    | some b =>
+      simp only [hsend] at h
+      obtain ⟨sa, sb⟩ := Bank.send_some hsend hne
+      cases hinc : incDistribute { s with ptrs := ps, bank := b } c.gauges ee with
+      | error e => simp [hinc] at h
+      | ok s2 =>
+        simp only [hinc] at h
+        refine key b ?_ ?_ s2 hinc h
+        · intro i
+          have := sb incAddr i
+          rw [if_neg (fun x => hne x.symm), if_pos rfl] at this
+          exact this
+        · intro i
+          have := sb streamerAddr i
+          rw [if_pos rfl] at this
+          exact ⟨sa i, this⟩
+
+
+/-! ### the stream-side step relation -/
+
+def Solv (s : State) : Prop := ∀ i, owedL s i ≤ amt (s.bank.get streamerAddr) i
+
+structure SStep (s s' : State) : Prop where
+  struct : SStruct s'
+  mono : StreamsMono s.streams s'.streams
+  solv : Solv s → NoOver s'.streams → Solv s'
+
+theorem SStep.refl {s : State} (hs : SStruct s) : SStep s s := ⟨hs, StreamsMono.refl _, fun h _ => h⟩
+
+theorem SStep.trans {a b c : State} (h1 : SStep a b) (h2 : SStep b c) : SStep a c :=
+  ⟨h2.struct, StreamsMono.trans h1.mono h2.mono,
+   fun hs hno => h2.solv (h1.solv hs (NoOver_of_mono h2.mono hno)) hno⟩
+
+/-- a change that leaves streams, reference lists and the streamer balance alone (or raises the balance) -/
+theorem SStep.of_frame {s s' : State} (hs : SStruct s) (h1 : s'.streams = s.streams) (h2 : s'.active = s.active)
+    (h3 : s'.upcoming = s.upcoming) (hb : ∀ i, amt (s.bank.get streamerAddr) i ≤ amt (s'.bank.get streamerAddr) i) : SStep s s' :=
+  ⟨SStruct_congr h1 h2 h3 hs, by rw [h1]; exact StreamsMono.refl _,
+   fun hsol _ i => by rw [owedL_congr h1 h2 h3 i]; exact Nat.le_trans (hsol i) (hb i)⟩
+
+/-- rewriting a stream without touching its coins or distributed coins -/
+theorem write_same (s : State) (hs : SStruct s) (st0 v : Stream) (hget : getS s.streams v.id = some st0)
+    (hc : v.coins = st0.coins) (hd : v.distributed = st0.distributed) :
+    SStruct (setStream s v) ∧ StreamsMono s.streams (setStream s v).streams ∧ ∀ i, owedL (setStream s v) i = owedL s i := by
+  obtain ⟨w1, w2, _, _⟩ := write_keep s hs st0 v hget hc (by intro i; rw [hd]; exact Nat.le_refl _)
+  refine ⟨w1, w2, ?_⟩
+  intro i
+  obtain ⟨h1, hk, hgetk, hid0, _⟩ := getS_some hs.sid hget
+  show ((openIds s).map (termS (s.streams.set (v.id - 1) v) · i)).sum = ((openIds s).map (termS s.streams · i)).sum
+  apply congrArg
+  apply List.map_congr_left
+  intro x _
+  by_cases hx : x = v.id
+  · subst hx
+    unfold termS
+    have := getS_set_eq s.streams (v.id - 1) v hk
+    have e : v.id - 1 + 1 = v.id := by omega
+    rw [e] at this
+    rw [this, hget]
+    simp only [hc, hd]
+  · exact termS_set_ne _ _ _ _ _ (by omega)
+
+theorem move_to_active (s : State) (hs : SStruct s) (t id : Nat) (u a : Refs)
+    (hd : Refs.del s.upcoming t id = some u) (ha : Refs.add s.active t id = some a) :
+    SStruct { s with upcoming := u, active := a } ∧ ∀ i, owedL { s with upcoming := u, active := a } i = owedL s i := by
+  obtain ⟨n1, n2, n3⟩ := List.nodup_append.1 hs.nodup
+  obtain ⟨d1, _, d3⟩ := Refs.del_spec (fun _ => 0) s.upcoming t id u hd
+  obtain ⟨j1, j2⟩ := d3 n2
+  have hidA : id ∉ s.active.ids := fun hm => n3 id hm id d1 rfl
+  have hopen : openIds { s with upcoming := u, active := a } = a.ids ++ u.ids := rfl
+  refine ⟨⟨hs.sid, ?_, ?_⟩, ?_⟩
+  · intro x hx
+    rw [hopen] at hx
+    apply hs.valid
+    rcases List.mem_append.1 hx with h | h
+    · rcases (Refs.add_mem ha x).1 h with h2 | h2
+      · exact List.mem_append_left _ h2
+      · rw [h2]; exact List.mem_append_right _ d1
+    · exact List.mem_append_right _ ((j2 x).1 h).1
+  · rw [hopen]
+    refine List.nodup_append.2 ⟨Refs.add_nodup ha n1 hidA, j1, ?_⟩
+    intro x hx y hy
+    rcases (Refs.add_mem ha x).1 hx with h2 | h2
+    · exact n3 x h2 y ((j2 y).1 hy).1
+    · rw [h2]; exact fun he => ((j2 y).1 hy).2 he.symm
+  · intro i
+    have e1 := (Refs.del_spec (termS s.streams · i) s.upcoming t id u hd).2.1
+    have e2 := Refs.add_sum ha (termS s.streams · i)
+    unfold owedL
+    rw [hopen]
+    show ((a.ids ++ u.ids).map (termS s.streams · i)).sum = ((s.active.ids ++ s.upcoming.ids).map (termS s.streams · i)).sum
+    simp only [List.map_append, List.sum_append]
+    omega
+
+theorem activateDue_spec : ∀ (l : List Stream) (s s' : State), SStruct s → activateDue l s = .ok s' →
+    SStruct s' ∧ s'.streams = s.streams ∧ s'.bank = s.bank ∧ ∀ i, owedL s' i = owedL s i := by
+  intro l
+  induction l with
+  | nil => intro s s' hs h; simp only [activateDue, Except.ok.injEq] at h; subst h; exact ⟨hs, rfl, rfl, fun _ => rfl⟩
+  | cons st rest ih =>
+    intro s s' hs h
+    unfold activateDue at h
+    split at h
+    · cases hd : Refs.del s.upcoming st.start st.id with
+      | none => simp [hd] at h
+      | some u =>
+        simp only [hd] at h
+        cases hf : Refs.add s.active st.start st.id with
+        | none => simp [hf] at h
+        | some a =>
+          simp only [hf] at h
+          obtain ⟨m1, m2⟩ := move_to_active s hs _ _ u a hd hf
+          obtain ⟨r1, r2, r3, r4⟩ := ih _ _ m1 h
+          exact ⟨r1, r2, r3, fun i => (r4 i).trans (m2 i)⟩
+    · exact ih _ _ hs h
+
+theorem startStreams_spec : ∀ (l : List Stream) (s s' : State), SStruct s → (l.map (·.id)).Nodup →
+    (∀ st ∈ l, getS s.streams st.id = some st) → startStreams l s = .ok s' →
+    SStruct s' ∧ StreamsMono s.streams s'.streams ∧ s'.bank = s.bank ∧ ∀ i, owedL s' i = owedL s i := by
+  intro l
+  induction l with
+  | nil => intro s s' hs _ _ h; simp only [startStreams, Except.ok.injEq] at h; subst h; exact ⟨hs, StreamsMono.refl _, rfl, fun _ => rfl⟩
+  | cons st rest ih =>
+    intro s s' hs hnd hall h
+    have hnd0 : (st.id :: rest.map (·.id)).Nodup := hnd
+    obtain ⟨hn1, hn2⟩ := List.nodup_cons.1 hnd0
+    unfold startStreams at h
+    cases hsub : Coins.sub? st.coins st.distributed with
+    | none => simp [hsub] at h
+    | some remain =>
+      simp only [hsub] at h
+      split at h
+      · simp at h
+      · have hget := hall st List.mem_cons_self
+        obtain ⟨w1, w2, w3⟩ := write_same s hs st
+          { st with epochCoins := Coins.quo remain (st.numEpochs - st.filled), ecEmpty := remain.isZero } hget rfl rfl
+        have hall' : ∀ y ∈ rest, getS (setStream s { st with epochCoins := Coins.quo remain (st.numEpochs - st.filled), ecEmpty := remain.isZero }).streams y.id = some y := by
+          intro y hy
+          have hne : y.id ≠ st.id := fun he => hn1 (by rw [← he]; exact List.mem_map_of_mem (f := (·.id)) hy)
+          obtain ⟨g1, _⟩ := getS_some hs.sid hget
+          show getS (s.streams.set (st.id - 1) _) y.id = some y
+          rw [getS_set_ne _ _ _ _ (by omega)]
+          exact hall y (List.mem_cons_of_mem _ hy)
+        obtain ⟨r1, r2, r3, r4⟩ := ih _ _ w1 hn2 hall' h
+        exact ⟨r1, StreamsMono.trans w2 r2, r3, fun i => (r4 i).trans (w3 i)⟩
+
+theorem streamerBeforeEpochStart_sstep (s : State) (e : Nat) (s' : State) (hs : SStruct s)
+    (h : streamerBeforeEpochStart s e = .ok s') : SStep s s' := by
+  unfold streamerBeforeEpochStart at h
+  cases ha : activateDue (upcomingStreams s) s with
+  | error x => simp [ha] at h
+  | ok s1 =>
+    simp only [ha] at h
+    obtain ⟨a1, a2, a3, a4⟩ := activateDue_spec _ _ _ hs ha
+    obtain ⟨gi1, gi2⟩ := activeStreamsFor_good s1 a1 e
+    obtain ⟨b1, b2, b3, b4⟩ := startStreams_spec _ _ _ a1 gi1 (fun st hst => (gi2 st hst).1) h
+    refine ⟨b1, by rw [a2] at b2; exact b2, ?_⟩
+    intro hsol _ i
+    rw [b4 i, a4 i, b3, a3]; exact hsol i
+
+theorem streamerAfterEpochEnd_sstep (s : State) (e : Nat) (s' : State) (hg : GInv s) (hs : SStruct s)
+    (h : streamerAfterEpochEnd s e = .ok s') : SStep s s' := by
+  unfold streamerAfterEpochEnd at h
+  dsimp only at h
+  split at h
+  · simp only [Except.ok.injEq] at h; subst h; exact SStep.refl hs
+  · cases hd : strDistribute s [e] (activeStreamsFor s e) maxU64 true with
+    | error x => simp [hd] at h
+    | ok s1 =>
+      simp only [hd, Except.ok.injEq] at h
+      subst h
+      obtain ⟨a, b, c⟩ := strDistribute_streams _ _ _ _ _ _ hg hs (activeStreamsFor_good s hs e) hd
+      exact SStep.trans ⟨a, b, c⟩ (SStep.of_frame a rfl rfl rfl (fun _ => Nat.le_refl _))
+
+theorem checkFinished_frame : ∀ (l : List Gauge) (s : State),
+    (checkFinished l s).streams = s.streams ∧ (checkFinished l s).active = s.active ∧
+    (checkFinished l s).upcoming = s.upcoming ∧ (checkFinished l s).bank = s.bank := by
+  intro l
+  induction l with
+  | nil => intro s; exact ⟨rfl, rfl, rfl, rfl⟩
+  | cons g rest ih =>
+    intro s
+    unfold checkFinished
+    split
+    · cases hc : getGauge s g.id with
+      | none => simp only; exact ih s
+      | some cur =>
+        simp only
+        obtain ⟨a, b, c, d⟩ := ih (setGauge s { cur with status := .finished })
+        exact ⟨a, b, c, d⟩
+    · exact ih s
+
+theorem incAfterEpochEnd_sstep (s : State) (e : Nat) (s' : State) (hg : GInv s) (hs : SStruct s)
+    (h : incAfterEpochEnd s e = .ok s') : SStep s s' := by
+  unfold incAfterEpochEnd at h
+  split at h
+  · simp only [Except.ok.injEq] at h; subst h; exact SStep.refl hs
+  · simp only at h
+    generalize hf : (fun g : Gauge => if (g.status == GStatus.upcoming && decide (g.start ≤ s.now)) = true then { g with status := GStatus.active } else g) = f at h
+    have hfp : ∀ g, (f g).id = g.id ∧ (f g).coins = g.coins ∧ (f g).distributed = g.distributed ∧ (f g).kind = g.kind := by
+      intro g; rw [← hf]; simp only; split <;> exact ⟨rfl, rfl, rfl, rfl⟩
+    have g1 : GInv { s with gauges := s.gauges.map f } := by
+      refine ⟨?_, ?_, ?_⟩
+      · intro k hk
+        simp only [List.getElem_map]
+        rw [(hfp _).1]; exact hg.ids k (by simpa using hk)
+      · intro g hgm i
+        obtain ⟨g0, hg0, he⟩ := List.mem_map.1 hgm
+        rw [← he, (hfp g0).2.1, (hfp g0).2.2.1]; exact hg.bounded g0 hg0 i
+      · intro i
+        have : owed (s.gauges.map f) i = owed s.gauges i := by
+          unfold owed
+          rw [List.map_map]
+          apply congrArg
+          apply List.map_congr_left
+          intro g _
+          simp only [Function.comp, owedG, (hfp g).2.1, (hfp g).2.2.1]
+        simp only; rw [this]; exact hg.solvent i
+    cases hd : incDistribute { s with gauges := s.gauges.map f } (List.filter (fun x => x.status == GStatus.active) (s.gauges.map f)) true with
+    | error x => simp [hd] at h
+    | ok s2 =>
+      simp only [hd, Except.ok.injEq] at h
+      have hsub : ∀ g ∈ List.filter (fun x => x.status == GStatus.active) (s.gauges.map f), g ∈ s.gauges.map f :=
+        fun g hgm => (List.mem_filter.1 hgm).1
+      obtain ⟨_, _, r3, _, _, r6, _⟩ := incDistribute_spec _ _ true s2 g1.ids g1.bounded
+        ((idsOK_nodup _ g1.ids).sublist ((List.filter_sublist).map _))
+        (fun g hgm => ⟨g, getG_of_mem g1.ids (hsub g hgm), rfl, rfl, fun _ => Nat.le_refl _⟩)
+        (by
+          intro i
+          have : extras (s.gauges.map f) (List.filter (fun x => x.status == GStatus.active) (s.gauges.map f)) i = 0 := by
+            unfold extras
+            apply sum_zero_of_all_zero
+            intro x hx
+            obtain ⟨g, hgm, he⟩ := List.mem_map.1 hx
+            rw [← he]; exact extra_self g1.ids (hsub g hgm) i
+          simp only; rw [this]; exact g1.solvent i)
+        hd
+      obtain ⟨c1, c2, c3, c4⟩ := checkFinished_frame (List.filter (fun x => x.status == GStatus.active) (s.gauges.map f)) s2
+      subst h
+      have hne : streamerAddr ≠ incAddr := by decide
+      refine SStep.of_frame hs (by rw [c1, r3]) (by rw [c2, r3]) (by rw [c3, r3]) ?_
+      intro i
+      rw [c4]
+      have := r6 streamerAddr hne i
+      simpa using this
+
+
+/-! ### blocks -/
+
+theorem applyHook_sstep (f : State → Res) (s : State) (hs : SStruct s)
+    (hf : ∀ s', f s = .ok s' → SStep s s') : SStep s (applyHook f s) := by
+  unfold applyHook
+  cases h : f s with
+  | ok s' => exact hf s' h
+  | error e => exact SStep.refl hs
+
+theorem epochTick_sstep (s : State) (e : Nat) (hg : GInv s) (hs : SStruct s) : SStep s (epochTick s e) := by
+  unfold epochTick
+  cases he : s.epochs[e]? with
+  | none => exact SStep.refl hs
+  | some ep =>
+    simp only
+    split
+    · exact SStep.refl hs
+    · split
+      · exact SStep.refl hs
+      · split
+        · have f1 : SStep s { s with epochs := s.epochs.set e { ep with started := true, curStart := ep.startTime } } :=
+            SStep.of_frame hs rfl rfl rfl (fun _ => Nat.le_refl _)
+          exact SStep.trans f1 (applyHook_sstep _ _ f1.struct (fun s' h => streamerBeforeEpochStart_sstep _ _ _ f1.struct h))
+        · have a1 := applyHook_sstep (fun x => streamerAfterEpochEnd x e) s hs
+            (fun s' h => streamerAfterEpochEnd_sstep _ _ _ hg hs h)
+          have g1 := (applyHook_spec (fun x => streamerAfterEpochEnd x e) s hg
+            (fun s' h => streamerAfterEpochEnd_spec _ _ _ hg h)).1
+          have a2 := applyHook_sstep (fun x => incAfterEpochEnd x e) _ a1.struct
+            (fun s' h => incAfterEpochEnd_sstep _ _ _ g1 a1.struct h)
+          generalize applyHook (fun x => incAfterEpochEnd x e) (applyHook (fun x => streamerAfterEpochEnd x e) s) = s2 at a2 ⊢
+          have f1 : SStep s2 { s2 with epochs := s2.epochs.set e { ep with curStart := ep.curStart + ep.dur } } :=
+            SStep.of_frame a2.struct rfl rfl rfl (fun _ => Nat.le_refl _)
+          exact SStep.trans a1 (SStep.trans a2 (SStep.trans f1
+            (applyHook_sstep _ _ f1.struct (fun s' h => streamerBeforeEpochStart_sstep _ _ _ f1.struct h))))
+
+theorem beginBlock_sstep (s : State) (dt : Nat) (hg : GInv s) (hs : SStruct s) : SStep s (beginBlock s dt) := by
+  unfold beginBlock
+  have f0 : SStep s { s with now := s.now + dt } := SStep.of_frame hs rfl rfl rfl (fun _ => Nat.le_refl _)
+  have hs0 : Same s { s with now := s.now + dt } := ⟨rfl, rfl, rfl, rfl⟩
+  have g0 := hs0.ginv hg
+  have t0 := epochTick_sstep _ 0 g0 f0.struct
+  have g1 := (epochTick_spec _ 0 g0).1
+  have t1 := epochTick_sstep _ 1 g1 t0.struct
+  have g2 := (epochTick_spec _ 1 g1).1
+  have t2 := epochTick_sstep _ 2 g2 t1.struct
+  exact SStep.trans f0 (SStep.trans t0 (SStep.trans t1 t2))
+
+/-! ### proposals -/
+
+theorem amt_sumList_map {α : Type} (f : α → Coins) (l : List α) (i : Nat) :
+    amt (Coins.sumList (l.map f)) i = (l.map (fun x => amt (f x) i)).sum := by
+  induction l with
+  | nil => simp [Coins.sumList]
+  | cons x xs ih => simp only [List.map_cons, Coins.sumList, amt_add, List.sum_cons, ih]
+
+theorem sum_sub_pointwise {α : Type} (c d : α → Nat) (l : List α) (h : ∀ x ∈ l, d x ≤ c x) :
+    (l.map (fun x => c x - d x)).sum = (l.map c).sum - (l.map d).sum ∧ (l.map d).sum ≤ (l.map c).sum := by
+  induction l with
+  | nil => simp
+  | cons x xs ih =>
+    obtain ⟨i1, i2⟩ := ih (fun y hy => h y (List.mem_cons_of_mem _ hy))
+    have := h x List.mem_cons_self
+    simp only [List.map_cons, List.sum_cons]
+    omega
+
+/-- `getToDistributeCoinsFromStreams` when no stream of the list has over-distributed -/
+theorem toDistribute_amt (l : List Stream) (r : Coins) (h : toDistribute l = some r)
+    (hno : ∀ st ∈ l, ∀ i, amt st.distributed i ≤ amt st.coins i) (i : Nat) :
+    amt r i = (l.map (fun st => amt st.coins i - amt st.distributed i)).sum := by
+  unfold toDistribute at h
+  obtain ⟨hr, _⟩ := sub?_some h
+  rw [hr, amt_sub, amt_sumList_map, amt_sumList_map]
+  exact ((sum_sub_pointwise (fun st => amt st.coins i) (fun st => amt st.distributed i) l (fun st hst => hno st hst i)).1).symm
+
+theorem filterMap_sum (ss : List Stream) (g : Stream → Nat) (ids : List Nat) :
+    ((ids.filterMap (getS ss)).map g).sum =
+      (ids.map (fun id => match getS ss id with | some st => g st | none => 0)).sum := by
+  induction ids with
+  | nil => simp
+  | cons x xs ih =>
+    cases hg : getS ss x with
+    | none => simp only [List.filterMap_cons, hg, List.map_cons, List.sum_cons, ih]; omega
+    | some st => simp only [List.filterMap_cons, hg, List.map_cons, List.sum_cons, ih]
+
+theorem mem_streamsOf {ss : List Stream} {ids : List Nat} {st : Stream} (h : st ∈ ids.filterMap (getS ss)) : st ∈ ss := by
+  obtain ⟨id, _, hg⟩ := List.mem_filterMap.1 h
+  unfold getS at hg
+  split at hg
+  · simp at hg
+  · exact List.mem_of_getElem? hg
+
+/-- the allocation computed by `GetModuleToDistributeCoins` is exactly what is owed to open streams -/
+theorem moduleToDistribute_amt (s : State) (alloc : Coins) (h : moduleToDistribute s = some alloc) (hno : NoOver s.streams) (i : Nat) :
+    amt alloc i = owedL s i := by
+  unfold moduleToDistribute at h
+  cases ha : toDistribute (activeStreams s) with
+  | none => simp [ha] at h
+  | some a =>
+    cases hu : toDistribute (upcomingStreams s) with
+    | none => simp [ha, hu] at h
+    | some u =>
+      simp only [ha, hu, Option.some.injEq] at h
+      subst h
+      have e1 := toDistribute_amt _ _ ha (fun st hst => hno st (mem_streamsOf hst)) i
+      have e2 := toDistribute_amt _ _ hu (fun st hst => hno st (mem_streamsOf hst)) i
+      rw [amt_add, e1, e2]
+      unfold owedL openIds activeStreams upcomingStreams streamsOf
+      simp only [List.map_append, List.sum_append]
+      have f1 := filterMap_sum s.streams (fun st => amt st.coins i - amt st.distributed i) s.active.ids
+      have f2 := filterMap_sum s.streams (fun st => amt st.coins i - amt st.distributed i) s.upcoming.ids
+      have hg : getStream s = getS s.streams := rfl
+      rw [hg, f1, f2]
+      rfl
+
+theorem getS_append_old (ss : List Stream) (v : Stream) (id : Nat) (h : id ≤ ss.length) : getS (ss ++ [v]) id = getS ss id := by
+  unfold getS
+  by_cases h0 : id = 0
+  · simp [h0]
+  · simp only [h0, if_false]
+    rw [List.getElem?_append_left (by omega)]
+
+theorem getS_append_new (ss : List Stream) (v : Stream) : getS (ss ++ [v]) (ss.length + 1) = some v := by
+  unfold getS
+  simp
+
+theorem createStream_sstep (s : State) (hs : SStruct s) (c : Coins) (rs : List Rec) (st e n : Nat) :
+    SStep s (createStream s c rs st e n).2 := by
+  unfold createStream
+  split
+  · exact SStep.refl hs
+  · split
+    · exact SStep.refl hs
+    · split
+      · exact SStep.refl hs
+      · cases hm : moduleToDistribute s with
+        | none => exact SStep.refl hs
+        | some alloc =>
+          simp only
+          cases hf : Coins.sub? (s.bank.get streamerAddr) alloc with
+          | none => exact SStep.refl hs
+          | some free =>
+            simp only
+            split
+            · exact SStep.refl hs
+            · next hle =>
+              split
+              · exact SStep.refl hs
+              · cases hadd : Refs.add s.upcoming (if st < s.now then s.now else st) (s.streams.length + 1) with
+                | none => exact SStep.refl hs
+                | some u =>
+                  simp only
+                  obtain ⟨n1, n2, n3⟩ := List.nodup_append.1 hs.nodup
+                  have hnew : ∀ x ∈ openIds s, x ≠ s.streams.length + 1 := fun x hx he => by have := (hs.valid x hx).2; omega
+                  let v : Stream := { id := s.streams.length + 1, recs := rs, totalWeight := totalWeightOf rs, coins := c, distributed := [], start := (if st < s.now then s.now else st), epochId := e, numEpochs := n, filled := 0, epochCoins := Coins.quo c n, ecEmpty := false }
+                  have hopen : openIds { s with streams := s.streams ++ [v], upcoming := u } = s.active.ids ++ u.ids := rfl
+                  refine ⟨⟨?_, ?_, ?_⟩, StreamsMono_append _ _, ?_⟩
+                  · intro k hk
+                    simp only [List.length_append, List.length_singleton] at hk
+                    by_cases h : k < s.streams.length
+                    · simp only [List.getElem_append_left h]; exact hs.sid k h
+                    · have : k = s.streams.length := by omega
+                      subst this; simp [v]
+                  · intro x hx
+                    rw [hopen] at hx
+                    simp only [List.length_append, List.length_singleton]
+                    rcases List.mem_append.1 hx with h | h
+                    · have := hs.valid x (List.mem_append_left _ h); omega
+                    · rcases (Refs.add_mem hadd x).1 h with h2 | h2
+                      · have := hs.valid x (List.mem_append_right _ h2); omega
+                      · omega
+                  · rw [hopen]
+                    refine List.nodup_append.2 ⟨n1, Refs.add_nodup hadd n2 (fun hm => hnew _ (List.mem_append_right _ hm) rfl), ?_⟩
+                    intro x hx y hy
+                    rcases (Refs.add_mem hadd y).1 hy with h2 | h2
+                    · exact n3 x hx y h2
+                    · rw [h2]; exact hnew x (List.mem_append_left _ hx)
+                  · intro hsol hno i
+                    have hno0 : NoOver s.streams := NoOver_of_mono (StreamsMono_append s.streams v) hno
+                    have ha := moduleToDistribute_amt s alloc hm hno0 i
+                    obtain ⟨hfr, hale⟩ := sub?_some hf
+                    have hle' : Coins.le c free = true := by simpa using hle
+                    have hci := (le_iff c free).1 hle' i
+                    rw [hfr, amt_sub] at hci
+                    have hold : ∀ x ∈ openIds s, termS (s.streams ++ [v]) x i = termS s.streams x i := by
+                      intro x hx
+                      unfold termS
+                      rw [getS_append_old _ _ _ (hs.valid x hx).2]
+                    have hnewt : termS (s.streams ++ [v]) (s.streams.length + 1) i = amt c i := by
+                      unfold termS; rw [getS_append_new]; simp [v]
+                    have hsum := Refs.add_sum hadd (termS (s.streams ++ [v]) · i)
+                    show ((s.active.ids ++ u.ids).map (termS (s.streams ++ [v]) · i)).sum ≤ _
+                    have hA : (s.active.ids.map (termS (s.streams ++ [v]) · i)).sum = (s.active.ids.map (termS s.streams · i)).sum :=
+                      congrArg List.sum (List.map_congr_left (fun x hx => hold x (List.mem_append_left _ hx)))
+                    have hU : (s.upcoming.ids.map (termS (s.streams ++ [v]) · i)).sum = (s.upcoming.ids.map (termS s.streams · i)).sum :=
+                      congrArg List.sum (List.map_congr_left (fun x hx => hold x (List.mem_append_right _ hx)))
+                    have hO : owedL s i = (s.active.ids.map (termS s.streams · i)).sum + (s.upcoming.ids.map (termS s.streams · i)).sum := by
+                      unfold owedL openIds; simp only [List.map_append, List.sum_append]
+                    have := hale i
+                    simp only [List.map_append, List.sum_append]
+                    rw [hsum, hA, hU, hnewt]
+                    show _ ≤ amt (s.bank.get streamerAddr) i
+                    omega
+
 end DymVerif.Incent
